@@ -141,6 +141,25 @@ func runBatch(inputs [][]byte, goroutines int) error {
 	}
 	// documents with NULs (Parse must replace them without touching the caller's bytes)
 	inputs = append(inputs[:len(inputs):len(inputs)], []byte("a\x00b\n\n[x\x00]: /u\n\n[x\x00] \x00\x00\n"), []byte("\x00\n> \x00 *a\x00*\n"))
+	// large documents (hundreds of root blocks, tens of kilobytes), several of
+	// them parsed at once: anything the library does only above a size (work
+	// handed to helper goroutines, pooled large buffers, a shared limiter) is
+	// otherwise never reached by concurrent calls. Built from the batch's own
+	// inputs, rotated and numbered so that the documents are distinct.
+	base := len(inputs)
+	small := inputs[:base:base]
+	for k := 0; k < 3; k++ {
+		var big []byte
+		for j := 0; j < 40+15*k; j++ {
+			piece := inputs[(j+k)%base]
+			if len(piece) > 200 {
+				piece = piece[:200]
+			}
+			big = append(big, piece...)
+			big = append(big, fmt.Sprintf("\n\npara %d %d *e* [l%d] `c`\n\n- i%d\n\n", k, j, j%5, j)...)
+		}
+		inputs = append(inputs[:len(inputs):len(inputs)], big)
+	}
 	// (a) distinct inputs parsed concurrently. The inputs of the in-memory
 	// parses are adjacent sub-slices of one buffer (each slice's capacity runs
 	// on over its neighbours), as when a caller cuts documents out of one
@@ -244,8 +263,8 @@ func runBatch(inputs [][]byte, goroutines int) error {
 	// (b) one shared tree rendered, formatted and walked concurrently
 	var doc []byte
 	doc = append(doc, upperHTML...)
-	doc = append(doc, rarePaths(2+len(inputs)%3)...)
-	for _, in := range inputs {
+	doc = append(doc, rarePaths(2+len(small)%3)...)
+	for _, in := range small {
 		doc = append(doc, in...)
 		doc = append(doc, "\n\n"...)
 	}
@@ -378,7 +397,7 @@ func genBatch(t *rapid.T) harness.Case {
 	return c
 }
 
-const rule = "batch of 4-16 G1/G2/G3 inputs x 8-64 goroutines behind a start barrier: (a) each input parsed (in-memory, as adjacent sub-slices of one shared buffer; streaming; streaming through one shared InlineParser value) concurrently, (b) the concatenation (plus raw HTML with upper-case tag names) parsed once, its tree and reference map untouched until the goroutines start (expected results come from a second parse), and rendered by shared HTMLRenderer values under all 24 configurations, formatted and walked concurrently; oracle = race detector log stays empty and every result equals the sequential one; non-trivial = batch has >= 4 inputs including reference syntax and raw HTML"
+const rule = "batch of 4-16 G1/G2/G3 inputs x 8-64 goroutines behind a start barrier: (a) each input parsed (in-memory, as adjacent sub-slices of one shared buffer; streaming; streaming through one shared InlineParser value) concurrently, (b) plus three large documents of 40-70 rotated copies of the inputs (hundreds of root blocks each) parsed at the same time, (b) the concatenation (plus raw HTML with upper-case tag names) parsed once, its tree and reference map untouched until the goroutines start (expected results come from a second parse), and rendered by shared HTMLRenderer values under all 24 configurations, formatted and walked concurrently; oracle = race detector log stays empty and every result equals the sequential one; non-trivial = batch has >= 4 inputs including reference syntax and raw HTML"
 
 func TestProperty(t *testing.T) {
 	harness.Run(t, harness.Plan{Prop: "C19", Inflight: true, Checks: []harness.Check{
